@@ -73,6 +73,11 @@ func (d *DoubleFs) LiveNames() []string {
 	return out
 }
 
+const (
+	maskedAtime = 1111111111
+	maskedCtime = 1222222222
+)
+
 type normInfo struct{ os.FileInfo }
 
 func (n normInfo) Size() int64 {
@@ -82,12 +87,13 @@ func (n normInfo) Size() int64 {
 	return n.FileInfo.Size()
 }
 
-// Sys hides access and change times (they cannot be set by the harness): both read as the epoch.
+// Sys replaces access and change times (they cannot be set by the harness) by two fixed, distinct instants:
+// masked_atime and masked_ctime of the session model.
 func (n normInfo) Sys() any {
 	if st, ok := n.FileInfo.Sys().(*syscall.Stat_t); ok {
 		c := *st
-		c.Atim = syscall.Timespec{}
-		c.Ctim = syscall.Timespec{}
+		c.Atim = syscall.Timespec{Sec: maskedAtime}
+		c.Ctim = syscall.Timespec{Sec: maskedCtime}
 		return &c
 	}
 	return n.FileInfo.Sys()
